@@ -39,7 +39,7 @@ FIXED = {
     ("wfn", "OCC NO"): "_load_helper_mo",
     ("wfn", "TOTAL ENERGY"): "_load_helper_energy",
 }
-FIXED_PREFIXES = {"pdb": ("ATOM  ", "CONECT", "TITLE", "COMPND"), "wfn": None}  # None: every record of the format
+FIXED_PREFIXES = {"pdb": None, "wfn": None}  # None: every record of the format is cut into fixed columns by the reader
 
 
 def rec(led, name, ok, detail="", witness=None, backend="eval", kind="post"):
